@@ -302,6 +302,18 @@ def r14_4(prog: Program, rep):
     records = any(isinstance(x, ast.Assign) and "self._packed_refs_key" in norm(x.targets[0]) and "fstat" in norm(x.value)
                   for x in ast.walk(gp.node))
     rep.ob("R14.4", m.rel, gp.qual, "identity recorded from the open file (fstat), not the path", records, "", gp.node.lineno)
+    # the key validates the cache: it is recorded only once the file was parsed to the end (a parse error after the key was
+    # set would leave a half-filled map that later reads take for the complete file)
+    keyn = [i for i, n in g.nodes.items() if n.kind == "stmt" and isinstance(n.ast, ast.Assign) and "self._packed_refs_key" in norm(n.ast.targets[0])
+            and not (isinstance(n.ast.value, ast.Constant) and n.ast.value.value is None)]
+    parse = [i for i, n in g.nodes.items() for c in node_calls(n) if callee_name(c) in ("read_packed_refs", "read_packed_refs_with_peeled")] + \
+        [i for i, n in g.nodes.items() if n.kind in ("for_iter", "for_init") and any(callee_name(c) in ("read_packed_refs", "read_packed_refs_with_peeled")
+                                                                                    for c in ast.walk(n.ast.iter) if isinstance(c, ast.Call))]
+    after_key = reach(g, [b for k in keyn for b, l in g.succ[k] if l not in EXC_LABELS], include_srcs=True) if keyn else set()
+    late = [p_ for p_ in parse if p_ in after_key]
+    rep.ob("R14.4", m.rel, gp.qual, "the identity is recorded only after the file was parsed to the end", bool(keyn) and bool(parse) and not late,
+           "parsing continues after the cache key was recorded: when a later line fails to parse, the partly filled map stays behind "
+           "with a valid key and every later read silently returns only the refs before the bad line", g.nodes[keyn[0]].line if keyn else gp.node.lineno)
     # who reads the cache attribute directly
     allowed = {"get_packed_refs", "_invalidate_packed_refs_cache", "__init__", "get_peeled"}
     for x in ast.walk(m.tree):
